@@ -66,6 +66,12 @@ impl Write for WritableFile {
         swap(&mut content, self.content.get_mut());
         let mut handle = self.fs.write().unwrap();
         let previous_file = handle.files.get(&self.destination);
+        match previous_file {
+            Some(file) if file.file_type == VfsFileType::File => {}
+            // the file was removed (or replaced by a directory) while this handle was open:
+            // as for writes to an unlinked file, the data is not published
+            _ => return Ok(()),
+        }
 
         let new_file = MemoryFile {
             file_type: VfsFileType::File,
